@@ -281,6 +281,38 @@ impl World {
             let next = guard(|| mm.next_cumulative_borrowing_factor(is_long, &prices, dur));
             let mm2 = m.clone();
             let real = guard(|| mm2.total_pending_borrowing_fees(&prices, is_long));
+            // Kink model: the rate is recomputed exactly; a differing delta or a failure where every
+            // intermediate result is representable is reported ("never fail to compute").
+            if let Some((rate, fits)) = oracle::kink_borrowing_rate(m, is_long, &prices) {
+                let cur = if is_long { bi(m.borrowing_factor.long_amount) } else { bi(m.borrowing_factor.short_amount) };
+                let delta = &rate * BigInt::from(dur);
+                let representable = fits && delta <= bi(T::MAX) && &cur + &delta <= bi(T::MAX);
+                match &next {
+                    Ok(Ok((_, d))) => {
+                        if bi(*d) != delta {
+                            let w = self.witness(json!({"after": site, "side_long": is_long, "duration": dur,
+                                "real_delta": d.to_string(), "recomputed_rate": rate.to_string(), "recomputed_delta": delta.to_string()}));
+                            cx.violation("C13:kink_model:factor_delta_differs_from_recomputation", || w);
+                        } else {
+                            cx.count("c13_kink_rate_exact");
+                            if !rate.is_zero() {
+                                cx.count("c13_kink_rate_exact_nonzero");
+                            }
+                        }
+                    }
+                    Ok(Err(e)) if representable => {
+                        let w = self.witness(json!({"after": site, "side_long": is_long, "duration": dur,
+                            "error": format!("{e:?}"), "recomputed_rate": rate.to_string(), "recomputed_delta": delta.to_string()}));
+                        cx.violation("C13:kink_model:rate_fails_although_computable", || w);
+                    }
+                    Err(_) if representable => {
+                        let w = self.witness(json!({"after": site, "side_long": is_long, "duration": dur,
+                            "error": "panic", "recomputed_rate": rate.to_string()}));
+                        cx.violation("C13:kink_model:rate_fails_although_computable", || w);
+                    }
+                    _ => cx.count("c13_kink_rate_not_representable"),
+                }
+            }
             match next {
                 Ok(Ok((next, _))) => {
                     let oi = oracle::oi_usd(m, is_long);
